@@ -1,27 +1,42 @@
 //! Reference arithmetic written for the harness (no rsdd code).
 
-/// (a * b) mod m without overflow, for m < 2^127
+/// (a + b) mod m for residues a, b < m, for every modulus up to 2^128 - 1 (no intermediate sum above u128)
+fn add_res(a: u128, b: u128, m: u128) -> u128 {
+    // a + b >= m  <=>  a >= m - b
+    if a >= m - b {
+        a - (m - b)
+    } else {
+        a + b
+    }
+}
+
+/// (a * b) mod m without overflow, for every modulus up to 2^128 - 1
 pub fn mulmod(a: u128, b: u128, m: u128) -> u128 {
-    debug_assert!(m > 0 && m < (1u128 << 127));
+    debug_assert!(m > 0);
     let mut a = a % m;
     let mut b = b % m;
     let mut r: u128 = 0;
     while b > 0 {
         if b & 1 == 1 {
-            r = (r + a) % m;
+            r = add_res(r, a, m);
         }
-        a = (a + a) % m;
+        a = add_res(a, a, m);
         b >>= 1;
     }
     r
 }
 
 pub fn addmod(a: u128, b: u128, m: u128) -> u128 {
-    ((a % m) + (b % m)) % m
+    add_res(a % m, b % m, m)
 }
 
 pub fn submod(a: u128, b: u128, m: u128) -> u128 {
-    ((a % m) + m - (b % m)) % m
+    let (a, b) = (a % m, b % m);
+    if a >= b {
+        a - b
+    } else {
+        a + (m - b)
+    }
 }
 
 #[cfg(test)]
@@ -36,6 +51,15 @@ mod tests {
                 }
             }
         }
+    }
+    #[test]
+    fn near_the_top_of_u128() {
+        let m = u128::MAX - 158; // 2^128 - 159, prime
+        assert_eq!(addmod(m - 1, m - 1, m), m - 2);
+        assert_eq!(submod(1, m - 1, m), 2);
+        assert_eq!(mulmod(m - 1, m - 1, m), 1);
+        assert_eq!(mulmod(m - 1, 2, m), m - 2);
+        assert_eq!(mulmod(1u128 << 127, 2, m), 159);
     }
     #[test]
     fn mulmod_big() {
